@@ -1261,6 +1261,7 @@ func main() {
 	o.DeclareSuite("res", "From Verif Require Import C02.Model C02.Model2.", "case_res2", "run_res2h")
 	o.DeclareSuite("eng", "From Verif Require Import C02.Model C02.Model2 C02.Model3.", "case_eng3", "run_eng3h")
 	o.DeclareSuite("dec", "From Verif Require Import C02.Model4.", "case_dec", "run_dec")
+	o.DeclareSuite("member", "From Verif Require Import C02.Model4.", "case_member", "run_member")
 	o.Rule("res: quota forests of 1-3 concurrent quotas (max 0-3, ttl 1-3 s, up to 3 levels, an unrelated second root), " +
 		"2-5 transactions; generated interleavings, at operation granularity, of limiter chains followed by response / early answer / " +
 		"proxy error / abandon, unstructured operation sequences, and all interleavings of small programs; clock readings aimed " +
@@ -1285,6 +1286,11 @@ func main() {
 		"dec: the expiry's decimal rendering / reading — Go's fmt.Sprintf(%d) on int64 boundaries (0, +-1, every power of ten and of two with neighbours, both ends of int64) and random values, " +
 		"and strconv.ParseInt(s, 10, 64) with its error class on byte strings around the 2^63 / 2^64 cutoffs, signs, leading zeros, '_', blanks, non-ASCII bytes, overflow before / after a bad byte, " +
 		"one-byte edits of renderings — against Model4.dec10 / parse10 (these cases are no histories: never counted non-trivial). " +
+		"member: whole member strings through the real generateMember / extractMemberFromItem / validateMemberIntegrity of a real concurrent quota (shim verif_c02b.go) under every " +
+		"cluster-liveness set-up (none, every instance id above, 'a:::b', ':::'), request expiry 1-3 s: members written with the clock such that the expiry is at both ends of int64, " +
+		"around 0, at today's UnixNano, random; request ids t<n>, empty, digits, 200 bytes, and with ':' / '::' inside (outside the theorem's hypothesis, still compared); each read by one GC item " +
+		"with the clock at the expiry, 1 ns before / after, around the 10 ms slack, at both ends of int64, at the write, random; and made-up strings (missing / extra / half separators, empty " +
+		"components, expiry with sign / zeros / out of range / bad bytes, one-byte edits of well-formed members) — against Model4.render dec10 / parse undec10 head4 / gc_item (run_member; no histories). " +
 		"distinct = distinct (configuration, steps, observations); non-trivial = the history contains a refusal and a slot being given back")
 	var raw struct {
 		Gen   string `json:"generator"`
@@ -1297,6 +1303,10 @@ func main() {
 			var k DecCase
 			o.ReplayCase(&k)
 			replayDec(o, k)
+		} else if suite == "member" {
+			var k MemberCase
+			o.ReplayCase(&k)
+			replayMember(o, k)
 		} else if suite == "eng" {
 			var k EngCase
 			o.ReplayCase(&k)
@@ -1359,5 +1369,7 @@ func main() {
 	}
 	genDec(o, r.Fork(0xdec))
 	lap("dec")
+	genMember(o, r.Fork(0x3e3be7))
+	lap("member")
 	o.Finish()
 }
